@@ -4,7 +4,7 @@ from __future__ import annotations
 
 import ast
 
-from ..core.repo import (AnalysisError, Repo, call_name, calls_in, definitions, dotted, is_const,
+from ..core.repo import (AnalysisError, Repo, call_name, calls_in, definitions, dotted, func_params, is_const,
                          kwarg, names_in, unparse, walk_no_nested_defs)
 
 DP = "quantem.diffractive_imaging.direct_ptychography"
@@ -283,6 +283,78 @@ def run(check, repo: Repo) -> None:
     ss = [unparse(d) for d in definitions(rec, "sign_sin_chi_q") if isinstance(d, ast.AST)]
     check.decide("torch.ones_like(q)" in ss and "torch.sign(torch.sin(chi_q))" in ss, "C04-R5", "reconstruct: without phase flipping the CTF sign factor is identically one", str(ss), mod.line(rec),
                  fail_detail=str(ss))
+
+    # ---- R6 hyper-parameters are selected by `is None`, never by truthiness -------------------------------------------------
+    from ..domains.optnum import optional_numeric_names, truthiness_uses
+    dmod = repo.module(DP)
+    n_opt = 0
+    for cls in [n for n in dmod.tree.body if isinstance(n, ast.ClassDef)]:
+        for fn in [n for n in cls.body if isinstance(n, (ast.FunctionDef, ast.AsyncFunctionDef))]:
+            ps, fs = optional_numeric_names(cls, fn)
+            used_fields = {x.attr for x in ast.walk(fn) if isinstance(x, ast.Attribute) and isinstance(x.value, ast.Name) and x.value.id == "self" and x.attr in fs}
+            if not ps and not used_fields:
+                continue
+            n_opt += len(ps) + len(used_fields)
+            bad = truthiness_uses(cls, fn)
+            check.decide(not bad, "C04-R6", f"{cls.name}.{fn.name}: optional numeric hyper-parameters ({', '.join(sorted(ps | {'self.' + f for f in used_fields}))}) are tested with `is None`", "",
+                         mod.line(bad[0][0]) if bad else mod.line(fn),
+                         fail_detail="; ".join(f"`{unparse(n_)[:70]}` uses {nm} as a truth value" for n_, nm in bad[:3]) +
+                                     ": an explicit 0 / 0.0 (e.g. a rotation override of exactly 0) is treated as 'not given' and another value is used — the result is no longer a "
+                                     "function of the stated hyper-parameters")
+    check.floor("optional numeric hyper-parameters examined", n_opt, 6)
+
+    # ---- R7 bright-field crop window is inclusive of the outermost mask pixel -------------------------------------------------
+    from ..domains.algnf import NotArithmetic, Rat, from_ast
+    umod, crop = repo.func(f"{DP.replace('direct_ptychography', 'direct_ptycho_utils')}:_crop_corner_centered_mask")
+    check.analysed(f"{DP.replace('direct_ptychography', 'direct_ptycho_utils')}:_crop_corner_centered_mask")
+    pad_param = func_params(crop)[1]
+    subs = [n for n in ast.walk(crop) if isinstance(n, ast.Subscript) and isinstance(n.slice, ast.Tuple) and len(n.slice.elts) == 2
+            and all(isinstance(e, ast.Slice) and e.lower is not None and e.upper is not None for e in n.slice.elts)]
+    if len(subs) != 1:
+        raise AnalysisError("_crop_corner_centered_mask: the 2-D crop `m[y0:y1, x0:x1]` was not found")
+    coords = [d for d in walk_no_nested_defs(crop) if isinstance(d, ast.Assign) and isinstance(d.value, ast.Call) and (call_name(d.value) or "").endswith("where")
+              and isinstance(d.targets[0], ast.Tuple) and len(d.targets[0].elts) == 2]
+    if len(coords) != 1:
+        raise AnalysisError("_crop_corner_centered_mask: `rows, cols = torch.where(mask)` not found")
+    cnames = [t.id for t in coords[0].targets[0].elts]
+
+    def resolve(e, depth=0):
+        if isinstance(e, ast.Name) and depth < 4:
+            dd = [d for d in definitions(crop, e.id) if isinstance(d, ast.AST)]
+            if len(dd) == 1:
+                return resolve(dd[0], depth + 1)
+        return e
+
+    def atom(e):
+        if isinstance(e, ast.Call) and isinstance(e.func, ast.Attribute) and e.func.attr in ("min", "max") and isinstance(e.func.value, ast.Name) and not e.args:
+            return f"{e.func.attr}[{cnames.index(e.func.value.id) if e.func.value.id in cnames else e.func.value.id}]"
+        return None
+    for ax, sl in enumerate(subs[0].slice.elts):
+        try:
+            env = {}
+            lo = from_ast(_inline(crop, sl.lower), env, atom)
+            hi = from_ast(_inline(crop, sl.upper), env, atom)
+            want = Rat.sym(f"max[{ax}]") - Rat.sym(f"min[{ax}]") + Rat.const(2) * Rat.sym(pad_param) + Rat.const(1)
+            ok = (hi - lo).equals(want)
+            got = f"{unparse(_inline(crop, sl.upper))} − ({unparse(_inline(crop, sl.lower))})"
+        except NotArithmetic as exc:
+            raise AnalysisError(f"_crop_corner_centered_mask: crop bound not arithmetic: {exc}")
+        check.decide(ok, "C04-R7", f"_crop_corner_centered_mask: axis {ax} keeps max − min + 1 mask rows plus the padding on both sides (exclusive stop = max + pad + 1)", got,
+                     umod.line(subs[0]), fail_detail=f"window extent is {got}: the outermost bright-field row/column is cut (or the wrong axis' extrema are used), so fewer mask pixels "
+                                                      f"than virtual images remain and the stack rows are paired with the wrong detector pixels")
+
+
+def _inline(fn, e: ast.AST, depth: int = 0) -> ast.AST:
+    """Expression with single-definition locals substituted (fresh nodes; repository nodes are not modified)."""
+    class T(ast.NodeTransformer):
+        def visit_Name(self, n):
+            if depth >= 4:
+                return n
+            dd = [d for d in definitions(fn, n.id) if isinstance(d, ast.AST)]
+            if len(dd) == 1:
+                return _inline(fn, dd[0], depth + 1)
+            return n
+    return T().visit(ast.parse(unparse(e), mode="eval").body)
 
 
 MANIFEST = {
